@@ -562,6 +562,16 @@ class World:
             target = RetryPolicy(**rk)
         elif comp == "arp":
             target = AsyncRetryPolicy(**rk)
+        elif comp in ("retrycfg", "aretrycfg", "rpcfg", "arpcfg"):
+            from redress import RetryConfig
+            cfg = RetryConfig(deadline_s=rk["deadline_s"], max_attempts=rk["max_attempts"],
+                              max_unknown_attempts=rk["max_unknown_attempts"],
+                              per_class_max_attempts=rk["per_class_max_attempts"], default_strategy=rk["strategy"],
+                              class_strategies=rk["strategies"], result_classifier=rk["result_classifier"],
+                              sleep=rk.get("sleep"), before_sleep=rk.get("before_sleep"), sleeper=rk.get("sleeper"),
+                              budget=rk.get("budget"))
+            cls = {"retrycfg": Retry, "aretrycfg": AsyncRetry, "rpcfg": RetryPolicy, "arpcfg": AsyncRetryPolicy}[comp]
+            target = cls.from_config(cfg, classifier=rk["classifier"])
         elif comp in ("deco", "adeco"):
             ck = self.call_kwargs()
             kw = dict(rk)
